@@ -151,6 +151,12 @@ def env_precedence_string(nested: bool, fe_i: int, is_set: bool, val: str, doc: 
             hold("bound", owner.x == val, "a loaded document overrode the environment variable")
             owner.x = "set"
             hold("bound", owner.x == "set", "explicit assignment did not override the variable")
+            # ... and it keeps beating both: a document loaded AFTER the assignment neither overrides it (the
+            # variable is still set) nor brings the variable's value back
+            cfg.load_tree({"sub": {"x": doc}} if nested else {"x": doc})
+            owner = cfg.sub if nested else cfg
+            hold("bound", owner.x == "set" or nested,
+                 lambda: "a load after the explicit assignment changed the value to %r" % (owner.x,))
             if not nested:
                 # (a keyword holding a MAP for a sub-configuration is applied with load semantics; whether that
                 #  counts as "explicit assignment" is not fixed by the statement -> not asserted)
